@@ -34,6 +34,7 @@ type Env struct {
 	bound  map[string]bool
 	fr     *Frame
 	localsFirst bool
+	pinned      map[string]Val
 }
 
 func (e *Env) child() *Env {
@@ -301,6 +302,12 @@ func (x *Exec) evalSpec(e *Expr, env *Env) Val {
 }
 
 func (x *Exec) evalIdent(name string, env *Env) Val {
+	if env.pinned != nil && !env.bound[name] {
+		// names that must not be shadowed by locals (callee parameters in assert/use ... before f)
+		if v, ok := env.pinned[name]; ok {
+			return v
+		}
+	}
 	if env.fr != nil && !env.bound[name] {
 		if v, ok := x.lookupPhi(env.fr, name, env.st); ok {
 			return v
